@@ -33,6 +33,10 @@ def c19 (s : St) (toks : List String) : Option (St × String) :=
       match Wv.Buf.archiveName (← Wv.bytesOfHex path) (← cap.toNat?) with
       | some w => pure (s, "ok " ++ Wv.hexOfBytes w)
       | none => pure (s, "err")
+  | ["c19buf", "info", need, value, cap] => do
+      match Wv.Buf.info (← need.toNat?) (← value.toNat?) (← cap.toNat?) with
+      | some w => pure (s, "ok " ++ Wv.hexOrDash w)
+      | none => pure (s, "err")
   | ["c19buf", "filename", name] => do
       match Wv.Buf.fileName (← Wv.bytesOfHex name) with
       | some w => pure (s, "ok " ++ Wv.hexOfBytes w)
